@@ -50,7 +50,7 @@ os.environ.setdefault('QISKIT_IN_PARALLEL', 'TRUE')
 COUNTS = {
     #            random RT   programs   expressions   ext(qiskit)  ext(pytket/cirq)
     'quick':    {'rt': 260,  'prog': 420,  'expr': 700,   'ext': 40,  'ext_other': 0},
-    'thorough': {'rt': 8000, 'prog': 18000, 'expr': 30000, 'ext': 800, 'ext_other': 60},
+    'thorough': {'rt': 4000, 'prog': 9000, 'expr': 16000, 'ext': 400, 'ext_other': 60},
 }
 TOL = 1e-10           # cost1 budget (statement: equal up to global phase)
 PHASE_TOL = 1e-7      # phase-aligned max element difference (round trip)
@@ -127,8 +127,10 @@ def bq_view(text: str) -> dict[str, Any]:
         _fatal(e)
         return {'status': 'exc', **exc_info(e)}
     try:
-        labels, items = bq_labels_and_items(circ)
-        U = refsim.unitary_of_items(items, [2] * circ.num_qudits)
+        with warnings.catch_warnings():
+            warnings.simplefilter('ignore')
+            labels, items = bq_labels_and_items(circ)
+            U = refsim.unitary_of_items(items, [2] * circ.num_qudits)
     except BaseException as e:  # noqa (pyo3 panics derive from BaseException)
         _fatal(e)
         return {'status': 'exc', 'stage': 'unitary', **exc_info(e)}
@@ -269,7 +271,8 @@ def classify_program_failure(prog: dict[str, Any], cls: str, ref: dict[str, Any]
         mode = 'reject' if b['clean_rejection'] else 'crash'
         if has_paren and b['exc'] in ('ZeroDivisionError', 'TypeError', 'OverflowError', 'ValueError', 'FloatingPointError'):
             q2_ = qk_view(Q.render_program(minimal, strip_parens=True))
-            if q2_['status'] != 'ok' or not np.all(np.isfinite(q2_['U'])):
+            all_exprs = [st['ex'][i] for st, i, _ in Q._expr_sites(minimal)]
+            if q2_['status'] != 'ok' or not np.all(np.isfinite(q2_['U'])) or py_reading_raises(all_exprs, b['exc']):
                 w['kind'] = 'expr:parentheses_ignored:arithmetic_error'
                 w['observed'] = 'BQSKit raises %s; the same text with every parenthesis removed is not evaluable (or not finite) for Qiskit either' % (b['exc'],)
                 w['text_without_parentheses'] = Q.render_program(minimal, strip_parens=True)
@@ -385,6 +388,8 @@ def _judge_program(prog: dict[str, Any], text: str, feats: set[str], out: dict[s
     for f in feats:
         if not f.startswith('gate:') and not f.startswith('lit:') and not f.startswith('layout'):
             cnt('feat:' + f)
+            if o['bq']['status'] == 'ok':
+                cnt('compared_feat:' + f)
     ngates = sum(1 for l in o['qk']['labels'] for x in l if x[0] == 'g')
     out['nontrivial'] = ngates >= 1
     out['sample'] = {'engine': 'program', 'text': text, 'features': sorted(feats), 'agree': not o['classes']}
@@ -480,6 +485,20 @@ def qk_value(text: str) -> dict[str, Any]:
 
 def close(a: float, b: float) -> bool:
     return bool(np.isfinite(a) and np.isfinite(b) and abs(a - b) <= 1e-12 + PARAM_RTOL * 8 * max(abs(a), abs(b)))
+
+
+def py_reading_raises(exprs: list[list], exc_name: str) -> bool:
+    """Does Python's reading of one of these (closed) expressions, with all
+    parentheses removed, raise `exc_name`? Classification aid only."""
+    for e in exprs:
+        if not Q._closed(e):
+            continue
+        try:
+            Q.py_eval_text(Q.render_expr(e, True))
+        except BaseException as ex:  # noqa
+            if type(ex).__name__ == exc_name:
+                return True
+    return False
 
 
 def same_value(a: float, b: float) -> bool:
@@ -614,11 +633,14 @@ def _judge_expr(e: list, mode: int, vals: list[float], inner: list[list] | None,
             for k in (0, 1):
                 ren = json.loads(json.dumps(inner2[k]).replace('"c"', '"a"').replace('"d"', '"b"'))
                 yield (ren, 1, vals2, None)
-        for cand in Q.expr_candidates(e2):
+        env2 = None
+        if mode2 == 1:
+            env2 = {'a': vals2[0], 'b': vals2[1]}
+        for cand in Q.expr_candidates(e2, env2):
             yield (cand, mode2, vals2, inner2)
         if inner2 is not None:
             for k in (0, 1):
-                for cand in Q.expr_candidates(inner2[k]):
+                for cand in Q.expr_candidates(inner2[k], {'c': vals2[0], 'd': vals2[1]}):
                     ni = list(inner2)
                     ni[k] = cand
                     yield (e2, mode2, vals2, ni)
@@ -633,12 +655,22 @@ def _judge_expr(e: list, mode: int, vals: list[float], inner: list[list] | None,
                     nv[k] = 0.5 if vals2[k] > 0 else -0.5
                     yield (e2, mode2, nv, inner2)
 
+    def state_features(st: tuple) -> set[str]:
+        f = set(Q.expr_features(st[0]))
+        for x in st[3] or []:
+            f |= Q.expr_features(x)
+        return f
+
     state = (e, mode, vals, inner)
     evals = 0
     progress = True
     while progress and evals < SHRINK_BUDGET:
         progress = False
+        cur_f = state_features(state) | {'lit:int'}
         for cand in state_candidates(state):
+            # monotone: a step may not introduce a construct
+            if not state_features(cand) <= cur_f:
+                continue
             evals += 1
             if fails_state(cand):
                 state, progress = cand, True
@@ -669,7 +701,7 @@ def _judge_expr(e: list, mode: int, vals: list[float], inner: list[list] | None,
         mode_s = 'reject' if b['clean_rejection'] else 'crash'
         if has_paren and b['exc'] in ('ZeroDivisionError', 'TypeError', 'OverflowError', 'ValueError', 'FloatingPointError'):
             qs = qk_value(o['stripped'])
-            if qs['status'] != 'ok' or not np.isfinite(qs['v']):
+            if qs['status'] != 'ok' or not np.isfinite(qs['v']) or py_reading_raises([cur] + list(cur_inner or []), b['exc']):
                 w['kind'] = 'expr:parentheses_ignored:arithmetic_error'
                 w['text_without_parentheses'] = o['stripped']
                 out['w'].append(w)
@@ -962,11 +994,18 @@ def rt_case(arg: tuple) -> dict[str, Any]:
         _, cr, entry, wrap = arg
         via_file = False
         out['c']['rt_single_gate_cases'] = 1
+        out['single'] = [entry, wrap]
     else:
-        _, seed, idx = arg
+        _, seed, idx, exclude = arg
         rng = core.rng_for(seed, PID, 1, idx)
         try:
-            cr = Q.gen_rt_circuit(rng, Q.qasm_gate_table())
+            # odd cases leave out the gates that already failed on their own,
+            # so the rest of the table is exercised in depth
+            tab = Q.qasm_gate_table()
+            if exclude and idx % 2 == 1:
+                tab = [e for e in tab if e['key'] not in exclude]
+                out['c']['rt_cases_without_individually_failing_gates'] = 1
+            cr = Q.gen_rt_circuit(rng, tab)
         except BaseException as e:  # noqa (pyo3 panics derive from BaseException)
             _fatal(e)
             out['harness'] = 'rt generator: %s %s' % (type(e).__name__, str(e)[:200])
@@ -990,6 +1029,7 @@ def rt_case(arg: tuple) -> dict[str, Any]:
     if o['cls'] is None:
         out['c']['rt_held'] = 1
         return out
+    out['failed_cls'] = o['cls']
     if o['cls'] == 'harness':
         # the *original* circuit cannot be simulated (e.g. a library gate
         # whose get_unitary raises for an extreme parameter: C18's subject)
@@ -1248,8 +1288,14 @@ def main(tier: str, seed: int, replay: str | None = None) -> int:
     # (a) round trip: every table gate alone / wrapped / nested, then random
     rng0 = core.rng_for(seed, PID, 0)
     singles = [('single', s['circuit'], s['entry'], s['wrap']) for s in Q.single_gate_cases(table, rng0)]
-    items = singles + [('rand', seed, i) for i in range(counts['rt'])]
-    for r in core.pmap(rt_case, items, workers=workers, chunksize=8):
+    bad_alone: set[str] = set()
+    for r in core.pmap(rt_case, singles, workers=workers, chunksize=8):
+        tally.merge(r)
+        if r.get('single') and r['single'][1] == 0 and r.get('failed_cls') in ('encode_exc', 'decode_exc'):
+            bad_alone.add(r['single'][0])
+    exclude = sorted(bad_alone)
+    run.count('rt_gates_failing_alone', len(exclude))
+    for r in core.pmap(rt_case, [('rand', seed, i, exclude) for i in range(counts['rt'])], workers=workers, chunksize=8):
         tally.merge(r)
     missing = {e['key'] for e in table} - {s[2] for s in singles}
     if missing:
@@ -1301,7 +1347,8 @@ def main(tier: str, seed: int, replay: str | None = None) -> int:
         ('rt_unitary_compared', 20), ('rt_order_compared', 20), ('rt_op_pairs_compared', 50),
         ('rt_param_vectors_compared', 20), ('prog_unitary_compared', 30), ('prog_structure_compared', 30),
         ('expr_values_compared', 50), ('prog_measure_labels', 5), ('prog_reset_labels', 5), ('prog_barrier_labels', 5),
-        ('feat:multi_qreg', 10), ('feat:nested_userdef', 5), ('feat:body_formal', 10), ('feat:paren', 5), ('feat:pow', 5), ('feat:usub', 10),
+        ('compared_feat:multi_qreg', 10), ('compared_feat:nested_userdef', 5), ('compared_feat:body_formal', 10),
+        ('compared_feat:paren', 5), ('compared_feat:pow', 5), ('compared_feat:usub', 10), ('compared_feat:pi', 10),
     ):
         run.require(c, m)
     programs = (
